@@ -280,15 +280,23 @@ static void name_stream(strm *s)
     vsa_name_xstream(s->xs, "X%d", s->idx + 1);
     vs_note("xl life X%d %d ptr=%p", s->idx + 1, s->life, (void *)p);
 }
-static void unname_stream(ABTI_xstream *p, void *sched, void *schedu, void *rootu)
+/* the objects hanging off the stream were released inside ABT_xstream_free while other threads ran: their addresses may
+ * already carry the names of another stream's objects, so the entries are dropped by <address, name> */
+static void unname1(const void *addr, const char *fmt, int x)
 {
-    vs_unname(p);
-    if (sched)
-        vs_unname(sched);
-    if (schedu)
-        vs_unname(schedu);
-    if (rootu)
-        vs_unname(rootu);
+    char b[40];
+    snprintf(b, sizeof b, fmt, x);
+    if (addr)
+        vs_unname_named(addr, b);
+}
+static void unname_stream(int x, ABTI_xstream *p, void *sched, void *schedu, void *rootu, void *pool, void *poolq)
+{
+    unname1(p, "X%d", x);
+    unname1(sched, "X%d.sched", x);
+    unname1(schedu, "X%d.schedU", x);
+    unname1(rootu, "X%d.rootU", x);
+    unname1(pool, "P%d", x);
+    unname1(poolq, "P%d.q", x);
 }
 
 static void do_op(int id, strm *s, sop *o)
@@ -418,10 +426,7 @@ static void do_op(int id, strm *s, sop *o)
             vs_log("xl call %d free X%d", id, x);
             rc = ABT_xstream_free(&s->xs);
             vs_note("xl ret %d free X%d %d", id, x, rc);
-            unname_stream(p, sched, schedu, rootu);
-            vs_unname(pp);
-            if (pq)
-                vs_unname(pq);
+            unname_stream(x, p, sched, schedu, rootu, pp, pq);
             VSA_CHECK(rc == ABT_SUCCESS, "ABT_xstream_free returned %d", rc);
             VSA_CHECK(s->xs == ABT_XSTREAM_NULL, "ABT_xstream_free did not reset the handle");
             VSA_CHECK(s->ran == s->pushed && s->exits_ran == s->exits_pushed,
